@@ -185,6 +185,19 @@ def run_workers(binary, test, shards, env=None, timeout=None, cwd=None, per_work
     return results
 
 
+def shard_work(work, n, name):
+    """Write work[i::n] to one file per worker and return the per_worker_env callable for run_workers
+    (every worker reads only its own share: a frontier of 10^5..10^6 states is hundreds of megabytes)."""
+    sd = scratch_dir()
+    files = []
+    for i in range(n):
+        f = os.path.join(sd, '%s.%d.json' % (name, i))
+        with open(f, 'w') as o:
+            json.dump(work[i::n], o)
+        files.append(f)
+    return lambda i: {'VERIF_WORK': files[i], 'VERIF_SHARD': '0', 'VERIF_NSHARDS': '1'}
+
+
 # ---------------------------------------------------------------- evidence / findings
 
 def load_known():
